@@ -84,6 +84,24 @@ HllArray<A>* HllArray<A>::copyAs(target_hll_type tgtHllType) const {
   }
 }
 
+// counts and table sizes read from an image: at most k slots sit at cur_min or are exceptions, only HLL_4 has
+// exceptions, and their table never needs more than 4k cells
+static inline void checkImageCounts(target_hll_type tgtHllType, uint8_t lgK, bool compact, uint8_t lgAuxArrInts,
+                                    uint32_t numAtCurMin, uint32_t auxCount) {
+  if (numAtCurMin > (1u << lgK)) {
+    throw std::invalid_argument("Possible corruption: num at cur min exceeds k: " + std::to_string(numAtCurMin));
+  }
+  if (auxCount > 0 && tgtHllType != HLL_4) {
+    throw std::invalid_argument("Possible corruption: aux entries in an image that is not HLL_4");
+  }
+  if (auxCount > (1u << lgK)) {
+    throw std::invalid_argument("Possible corruption: aux count exceeds k: " + std::to_string(auxCount));
+  }
+  if (tgtHllType == HLL_4 && !compact && lgAuxArrInts > lgK + 1) {
+    throw std::invalid_argument("Possible corruption: aux table larger than 4k cells: lgArr " + std::to_string(lgAuxArrInts));
+  }
+}
+
 template<typename A>
 HllArray<A>* HllArray<A>::newHll(const void* bytes, size_t len, const A& allocator) {
   if (len < hll_constants::HLL_BYTE_ARR_START) {
@@ -111,7 +129,7 @@ HllArray<A>* HllArray<A>::newHll(const void* bytes, size_t len, const A& allocat
   const bool comapctFlag = ((data[hll_constants::FLAGS_BYTE] & hll_constants::COMPACT_FLAG_MASK) ? true : false);
   const bool startFullSizeFlag = ((data[hll_constants::FLAGS_BYTE] & hll_constants::FULL_SIZE_FLAG_MASK) ? true : false);
 
-  const uint8_t lgK = data[hll_constants::LG_K_BYTE];
+  const uint8_t lgK = HllUtil<A>::checkLgK(data[hll_constants::LG_K_BYTE]);
   const uint8_t curMin = data[hll_constants::HLL_CUR_MIN_BYTE];
 
   const uint32_t arrayBytes = hllArrBytes(tgtHllType, lgK);
@@ -127,6 +145,7 @@ HllArray<A>* HllArray<A>::newHll(const void* bytes, size_t len, const A& allocat
   uint32_t numAtCurMin, auxCount;
   std::memcpy(&numAtCurMin, data + hll_constants::CUR_MIN_COUNT_INT, sizeof(int));
   std::memcpy(&auxCount, data + hll_constants::AUX_COUNT_INT, sizeof(int));
+  checkImageCounts(tgtHllType, lgK, comapctFlag, data[hll_constants::LG_ARR_BYTE], numAtCurMin, auxCount);
 
   AuxHashMap<A>* auxHashMap = nullptr;
   typedef std::unique_ptr<AuxHashMap<A>, std::function<void(AuxHashMap<A>*)>> aux_hash_map_ptr;
@@ -181,7 +200,7 @@ HllArray<A>* HllArray<A>::newHll(std::istream& is, const A& allocator) {
   const bool comapctFlag = ((listHeader[hll_constants::FLAGS_BYTE] & hll_constants::COMPACT_FLAG_MASK) ? true : false);
   const bool startFullSizeFlag = ((listHeader[hll_constants::FLAGS_BYTE] & hll_constants::FULL_SIZE_FLAG_MASK) ? true : false);
 
-  const uint8_t lgK = listHeader[hll_constants::LG_K_BYTE];
+  const uint8_t lgK = HllUtil<A>::checkLgK(listHeader[hll_constants::LG_K_BYTE]);
   const uint8_t curMin = listHeader[hll_constants::HLL_CUR_MIN_BYTE];
 
   HllArray* sketch = HllSketchImplFactory<A>::newHll(lgK, tgtHllType, startFullSizeFlag, allocator);
@@ -199,6 +218,7 @@ HllArray<A>* HllArray<A>::newHll(std::istream& is, const A& allocator) {
 
   const auto numAtCurMin = read<uint32_t>(is);
   const auto auxCount = read<uint32_t>(is);
+  checkImageCounts(tgtHllType, lgK, comapctFlag, listHeader[hll_constants::LG_ARR_BYTE], numAtCurMin, auxCount);
   sketch->putNumAtCurMin(numAtCurMin);
   
   read(is, sketch->hllByteArr_.data(), sketch->getHllByteArrBytes());
